@@ -906,6 +906,19 @@ APP_ATTACKS = ['..', '.', '../outside', '..%2foutside', '%2e%2e%2foutside', 'out
                'APP', 'app ', '\u00fc', '..\\outside', 'conf', 'A' * 300, '{ROOT}/outside', 'second.yaml', '', 'app/..',
                '....', 'app.', '.app']
 
+# /demo/static/<name> is joined to the template directory of the mapproxy package: enough ../ to reach / and
+# down again into the deployment (text bait, a bait tile, the foreign configuration), plus generic forms
+_UP = '../' * 16
+STATIC_ATTACKS = [_UP + '{ROOTREL}/bait/secret.txt', 'site.css/' + _UP + '{ROOTREL}/bait/secret.txt',
+                  'img/../' + _UP + '{ROOTREL}/bait/secret.txt', _UP + '{ROOTREL}/outside.yaml',
+                  _UP + '{ROOTREL}/bait/0/0/0.png', _UP + '{ROOTREL}/conf/app.yaml',
+                  '../' * 40 + '{ROOTREL}/bait/secret.txt', './' + _UP + '{ROOTREL}/bait/secret.txt',
+                  '../demo.html', '../../wms130capabilities.xml', '../../../version.py', '../../../../setup.py',
+                  '..%2f..%2f..%2fversion.py', '.../x', '....//....//version.py', 'site.css/../../../../version.py',
+                  '..\\..\\..\\version.py', '{ROOT}/bait/secret.txt', '/{ROOTREL}/bait/secret.txt', '/etc/passwd',
+                  'site.css\x00', '\x00', '', '.', '..', 'A' * 3000, '%2e%2e/%2e%2e/%2e%2e/version.py',
+                  '\uff0e\uff0e/\uff0e\uff0e/version.py']
+
 MERC = 20037508.342789244
 
 
@@ -1103,9 +1116,7 @@ def _strategies():
         kind = draw(st.sampled_from(['static', 'static', 'page', 'page', 'caps']))
         if kind == 'static':
             name = draw(slot('static-path', ['site.css', 'img/favicon.ico', 'openlayers/ol.js', 'nosuch.js', 'logo.png'],
-                             ATTACK_VALUES + ['../' * 14 + '{ROOTREL}/bait/secret.txt', '../demo.html',
-                                              '..%2f..%2f..%2fversion.py', '.../x', 'site.css/../../../../version.py'],
-                             60, used))
+                             STATIC_ATTACKS, 60, used))
             return '/demo/static/' + name, []
         if kind == 'page':
             key = draw(st.sampled_from(['wms_layer', 'tms_layer', 'wmts_layer']))
